@@ -24,6 +24,7 @@ struct H : PostStepHost
 };
 extern "C" void w_RowObj(PS_PARAMS, int m_i, int m_j)
 {
+   VIN("m_i", m_i); VIN("m_j", m_j);
    H h; PS_BIND(h) h.m_i = m_i; h.m_j = m_j;
    h.body();
 }
@@ -42,6 +43,7 @@ struct H : PostStepHost
 };
 extern "C" void w_FreeConstraint(PS_PARAMS, int m_i, int m_old_i, int* row_idx, double* row_val, int row_n, double m_row_obj)
 {
+   VIN("m_i", m_i); VIN("m_old_i", m_old_i); VIN("row_n", row_n); VIN("m_row_obj", m_row_obj);
    H h; PS_BIND(h) h.m_i = m_i; h.m_old_i = m_old_i; h.m_row_obj = m_row_obj;
    PS_SVEC(h.m_row, row_idx, row_val, row_n, nC)
    h.body();
@@ -61,6 +63,7 @@ struct H : PostStepHost
 };
 extern "C" void w_EmptyConstraint(PS_PARAMS, int m_i, int m_old_i, double m_row_obj)
 {
+   VIN("m_i", m_i); VIN("m_old_i", m_old_i); VIN("m_row_obj", m_row_obj);
    H h; PS_BIND(h) h.m_i = m_i; h.m_old_i = m_old_i; h.m_row_obj = m_row_obj;
    h.body();
 }
@@ -79,6 +82,7 @@ struct H : PostStepHost
 };
 extern "C" void w_FixBounds(PS_PARAMS, int m_j, int m_status)
 {
+   VIN("m_j", m_j); VIN("m_status", m_status);
    H h; PS_BIND(h) h.m_j = m_j; h.m_status = (VarStatus)m_status;
    h.body();
 }
@@ -97,6 +101,7 @@ struct H : PostStepHost
 };
 extern "C" void w_TightenBounds(PS_PARAMS, int m_j, double m_origupper, double m_origlower)
 {
+   VIN("m_j", m_j); VIN("m_origupper", m_origupper); VIN("m_origlower", m_origlower);
    H h; PS_BIND(h) h.m_j = m_j; h.m_origupper = m_origupper; h.m_origlower = m_origlower;
    h.body();
 }
@@ -118,6 +123,7 @@ extern "C" void w_RowSingleton(PS_PARAMS, int m_i, int m_old_i, int m_j, double 
                                int m_maxSense, double m_obj, int* col_idx, double* col_val, int col_n, double m_newLo, double m_newUp,
                                double m_oldLo, double m_oldUp, double m_row_obj)
 {
+   VIN("m_i", m_i); VIN("m_old_i", m_old_i); VIN("m_j", m_j); VIN("m_lhs", m_lhs); VIN("m_rhs", m_rhs); VIN("m_strictLo", m_strictLo); VIN("m_strictUp", m_strictUp); VIN("m_maxSense", m_maxSense); VIN("m_obj", m_obj); VIN("col_n", col_n); VIN("m_newLo", m_newLo); VIN("m_newUp", m_newUp); VIN("m_oldLo", m_oldLo); VIN("m_oldUp", m_oldUp); VIN("m_row_obj", m_row_obj);
    H h; PS_BIND(h) h.m_i = m_i; h.m_old_i = m_old_i; h.m_j = m_j; h.m_lhs = m_lhs; h.m_rhs = m_rhs; h.m_strictLo = m_strictLo != 0;
    h.m_strictUp = m_strictUp != 0; h.m_maxSense = m_maxSense != 0; h.m_obj = m_obj; h.m_newLo = m_newLo; h.m_newUp = m_newUp;
    h.m_oldLo = m_oldLo; h.m_oldUp = m_oldUp; h.m_row_obj = m_row_obj;
@@ -140,6 +146,7 @@ struct H : PostStepHost
 extern "C" void w_FixVariable(PS_PARAMS, int m_j, int m_old_j, double m_val, double m_obj, double m_lower, double m_upper, int m_correctIdx,
                               int* col_idx, double* col_val, int col_n)
 {
+   VIN("m_j", m_j); VIN("m_old_j", m_old_j); VIN("m_val", m_val); VIN("m_obj", m_obj); VIN("m_lower", m_lower); VIN("m_upper", m_upper); VIN("m_correctIdx", m_correctIdx); VIN("col_n", col_n);
    H h; PS_BIND(h) h.m_j = m_j; h.m_old_j = m_old_j; h.m_val = m_val; h.m_obj = m_obj; h.m_lower = m_lower; h.m_upper = m_upper;
    h.m_correctIdx = m_correctIdx != 0;
    PS_SVEC(h.m_col, col_idx, col_val, col_n, nR)
@@ -171,6 +178,7 @@ extern "C" void w_ForceConstraint(PS_PARAMS, int m_i, int m_old_i, double m_lRhs
                                   bool* fixed, int* cols_idx, double* cols_val, int* cols_n, int m_lhsFixed, int m_maxSense,
                                   double* oldLo, double* oldUp, double m_lhs, double m_rhs, double m_rowobj)
 {
+   VIN("m_i", m_i); VIN("m_old_i", m_old_i); VIN("m_lRhs", m_lRhs); VIN("row_n", row_n); VIN("m_lhsFixed", m_lhsFixed); VIN("m_maxSense", m_maxSense); VIN("m_lhs", m_lhs); VIN("m_rhs", m_rhs); VIN("m_rowobj", m_rowobj);
    H h; PS_BIND(h) h.m_i = m_i; h.m_old_i = m_old_i; h.m_lRhs = m_lRhs; h.m_lhsFixed = m_lhsFixed != 0; h.m_maxSense = m_maxSense != 0;
    h.m_lhs = m_lhs; h.m_rhs = m_rhs; h.m_rowobj = m_rowobj;
    PS_SVEC(h.m_row, row_idx, row_val, row_n, nC)
@@ -200,6 +208,7 @@ extern "C" void w_FreeZeroObjVariable(PS_PARAMS, int m_j, int m_old_j, int m_old
                                       int* lrhs_idx, double* lrhs_val, int* robj_idx, double* robj_val,
                                       int* rows_idx, double* rows_val, int* rows_n, int m_loFree)
 {
+   VIN("m_j", m_j); VIN("m_old_j", m_old_j); VIN("m_old_i", m_old_i); VIN("m_bnd", m_bnd); VIN("col_n", col_n); VIN("m_loFree", m_loFree);
    H h; PS_BIND(h) h.m_j = m_j; h.m_old_j = m_old_j; h.m_old_i = m_old_i; h.m_bnd = m_bnd; h.m_loFree = m_loFree != 0;
    PS_SVEC(h.m_col, col_idx, col_val, col_n, nR)
    PS_SVEC(h.m_lRhs, lrhs_idx, lrhs_val, col_n, CAP)
@@ -225,6 +234,7 @@ struct H : PostStepHost
 extern "C" void w_ZeroObjColSingleton(PS_PARAMS, int m_j, int m_i, int m_old_j, double m_lhs, double m_rhs, double m_lower, double m_upper,
                                       int* row_idx, double* row_val, int row_n)
 {
+   VIN("m_j", m_j); VIN("m_i", m_i); VIN("m_old_j", m_old_j); VIN("m_lhs", m_lhs); VIN("m_rhs", m_rhs); VIN("m_lower", m_lower); VIN("m_upper", m_upper); VIN("row_n", row_n);
    H h; PS_BIND(h) h.m_j = m_j; h.m_i = m_i; h.m_old_j = m_old_j; h.m_lhs = m_lhs; h.m_rhs = m_rhs; h.m_lower = m_lower; h.m_upper = m_upper;
    PS_SVEC(h.m_row, row_idx, row_val, row_n, nC)
    h.body();
@@ -245,6 +255,7 @@ struct H : PostStepHost
 extern "C" void w_FreeColSingleton(PS_PARAMS, int m_j, int m_i, int m_old_j, int m_old_i, double m_obj, double m_lRhs, int m_onLhs, int m_eqCons,
                                    int* row_idx, double* row_val, int row_n)
 {
+   VIN("m_j", m_j); VIN("m_i", m_i); VIN("m_old_j", m_old_j); VIN("m_old_i", m_old_i); VIN("m_obj", m_obj); VIN("m_lRhs", m_lRhs); VIN("m_onLhs", m_onLhs); VIN("m_eqCons", m_eqCons); VIN("row_n", row_n);
    H h; PS_BIND(h) h.m_j = m_j; h.m_i = m_i; h.m_old_j = m_old_j; h.m_old_i = m_old_i; h.m_obj = m_obj; h.m_lRhs = m_lRhs;
    h.m_onLhs = m_onLhs != 0; h.m_eqCons = m_eqCons != 0;
    PS_SVEC(h.m_row, row_idx, row_val, row_n, nC)
@@ -268,6 +279,7 @@ extern "C" void w_MultiAggregation(PS_PARAMS, int m_j, int m_i, int m_old_j, int
                                    double m_const, int m_onLhs, int m_eqCons, int* row_idx, double* row_val, int row_n,
                                    int* col_idx, double* col_val, int col_n)
 {
+   VIN("m_j", m_j); VIN("m_i", m_i); VIN("m_old_j", m_old_j); VIN("m_old_i", m_old_i); VIN("m_upper", m_upper); VIN("m_lower", m_lower); VIN("m_obj", m_obj); VIN("m_const", m_const); VIN("m_onLhs", m_onLhs); VIN("m_eqCons", m_eqCons); VIN("row_n", row_n); VIN("col_n", col_n);
    H h; PS_BIND(h) h.m_j = m_j; h.m_i = m_i; h.m_old_j = m_old_j; h.m_old_i = m_old_i; h.m_upper = m_upper; h.m_lower = m_lower;
    h.m_obj = m_obj; h.m_const = m_const; h.m_onLhs = m_onLhs != 0; h.m_eqCons = m_eqCons != 0;
    PS_SVEC(h.m_row, row_idx, row_val, row_n, nC)
@@ -292,6 +304,7 @@ extern "C" void w_Aggregation(PS_PARAMS, int m_j, int m_i, int m_old_j, int m_ol
                               double m_oldupper, double m_oldlower, double m_rhs, int* row_idx, double* row_val, int row_n,
                               int* col_idx, double* col_val, int col_n)
 {
+   VIN("m_j", m_j); VIN("m_i", m_i); VIN("m_old_j", m_old_j); VIN("m_old_i", m_old_i); VIN("m_upper", m_upper); VIN("m_lower", m_lower); VIN("m_obj", m_obj); VIN("m_oldupper", m_oldupper); VIN("m_oldlower", m_oldlower); VIN("m_rhs", m_rhs); VIN("row_n", row_n); VIN("col_n", col_n);
    H h; PS_BIND(h) h.m_j = m_j; h.m_i = m_i; h.m_old_j = m_old_j; h.m_old_i = m_old_i; h.m_upper = m_upper; h.m_lower = m_lower;
    h.m_obj = m_obj; h.m_oldupper = m_oldupper; h.m_oldlower = m_oldlower; h.m_rhs = m_rhs;
    PS_SVEC(h.m_row, row_idx, row_val, row_n, nC)
@@ -316,6 +329,7 @@ extern "C" void w_DoubletonEquation(PS_PARAMS, int m_j, int m_k, int m_i, int m_
                                     int m_strictLo, int m_strictUp, double m_newLo, double m_newUp, double m_oldLo, double m_oldUp,
                                     double m_Lo_j, double m_Up_j, double m_lhs, double m_rhs, int* col_idx, double* col_val, int col_n)
 {
+   VIN("m_j", m_j); VIN("m_k", m_k); VIN("m_i", m_i); VIN("m_maxSense", m_maxSense); VIN("m_jFixed", m_jFixed); VIN("m_jObj", m_jObj); VIN("m_kObj", m_kObj); VIN("m_aij", m_aij); VIN("m_strictLo", m_strictLo); VIN("m_strictUp", m_strictUp); VIN("m_newLo", m_newLo); VIN("m_newUp", m_newUp); VIN("m_oldLo", m_oldLo); VIN("m_oldUp", m_oldUp); VIN("m_Lo_j", m_Lo_j); VIN("m_Up_j", m_Up_j); VIN("m_lhs", m_lhs); VIN("m_rhs", m_rhs); VIN("col_n", col_n);
    H h; PS_BIND(h) h.m_j = m_j; h.m_k = m_k; h.m_i = m_i; h.m_maxSense = m_maxSense != 0; h.m_jFixed = m_jFixed != 0; h.m_jObj = m_jObj;
    h.m_kObj = m_kObj; h.m_aij = m_aij; h.m_strictLo = m_strictLo != 0; h.m_strictUp = m_strictUp != 0; h.m_newLo = m_newLo; h.m_newUp = m_newUp;
    h.m_oldLo = m_oldLo; h.m_oldUp = m_oldUp; h.m_Lo_j = m_Lo_j; h.m_Up_j = m_Up_j; h.m_lhs = m_lhs; h.m_rhs = m_rhs;
@@ -338,6 +352,7 @@ struct H : PostStepHost
 extern "C" void w_DuplicateCols(PS_PARAMS, int m_j, int m_k, double m_loJ, double m_upJ, double m_loK, double m_upK, double m_scale,
                                 int m_isFirst, int m_isLast, int* perm, int perm_n)
 {
+   VIN("m_j", m_j); VIN("m_k", m_k); VIN("m_loJ", m_loJ); VIN("m_upJ", m_upJ); VIN("m_loK", m_loK); VIN("m_upK", m_upK); VIN("m_scale", m_scale); VIN("m_isFirst", m_isFirst); VIN("m_isLast", m_isLast); VIN("perm_n", perm_n);
    H h; PS_BIND(h) h.m_j = m_j; h.m_k = m_k; h.m_loJ = m_loJ; h.m_upJ = m_upJ; h.m_loK = m_loK; h.m_upK = m_upK; h.m_scale = m_scale;
    h.m_isFirst = m_isFirst != 0; h.m_isLast = m_isLast != 0; h.m_perm.data = perm; h.m_perm.thesize = perm_n;
    h.body();
@@ -360,6 +375,7 @@ extern "C" void w_DuplicateRows(PS_PARAMS, int m_i, double m_i_rowObj, int m_max
                                 int m_isLast, int m_fixed, int m_nCols, int* scale_idx, double* scale_val, int scale_n,
                                 int* robj_idx, double* robj_val, int* rIdxLocalOld, int* perm, int perm_n, bool* isLhsEqualRhs)
 {
+   VIN("m_i", m_i); VIN("m_i_rowObj", m_i_rowObj); VIN("m_maxLhsIdx", m_maxLhsIdx); VIN("m_minRhsIdx", m_minRhsIdx); VIN("m_maxSense", m_maxSense); VIN("m_isFirst", m_isFirst); VIN("m_isLast", m_isLast); VIN("m_fixed", m_fixed); VIN("m_nCols", m_nCols); VIN("scale_n", scale_n); VIN("perm_n", perm_n);
    H h; PS_BIND(h) h.m_i = m_i; h.m_i_rowObj = m_i_rowObj; h.m_maxLhsIdx = m_maxLhsIdx; h.m_minRhsIdx = m_minRhsIdx;
    h.m_maxSense = m_maxSense != 0; h.m_isFirst = m_isFirst != 0; h.m_isLast = m_isLast != 0; h.m_fixed = m_fixed != 0; h.m_nCols = m_nCols;
    PS_SVEC(h.m_scale, scale_idx, scale_val, scale_n, nR)
